@@ -74,3 +74,19 @@ CHECKS["C19"] = (
     "complete corruption matrix; API sweep over fixed edge objects and seeded random objects of every class on four parent kinds; fourteen leaks repaired (see KNOWN_FINDINGS.json fixed entries)",
     "DESIGN.md 5/C19",
 )
+
+CHECKS["C04"] = (
+    "runtime monitoring: lift-over reference model (composition of position lists through a hierarchy the harness builds itself; level strings by the IUPAC complement model; chunk push-down) compared with every lift_over_to_first_ancestor_of_type / lift_over_to_sequence / lift_child_location_to_parent / chunk lift result, plus refusal and ancestor-search monitors",
+    "exhaustive depth-1 and depth-2 hierarchies over small roots x all strand mixes x every child location; random hierarchies of depth 1..4 (all 30 strand mixes); every chunk window x strand x location over a small genome; one defect repaired (lift of a child with leading empty blocks)",
+    "DESIGN.md 5/C04",
+)
+CHECKS["C06"] = (
+    "runtime monitoring: position-list reference model (exon list E, CDS list C) compared with every conversion method of TranscriptInterval / CDSInterval / FeatureInterval, path-commutation and inverse monitors (library vs library), UTR partition and intron monitors",
+    "exhaustive: all 1..3-exon layouts x strands x every CDS placement x every position and sub-interval in chromosome and chunk-relative flavours on four parent kinds; random 1..4-exon transcripts; no finding on the current tree (F6 repaired earlier)",
+    "DESIGN.md 5/C06",
+)
+CHECKS["C10"] = (
+    "runtime monitoring: history/twin monitor (object asked after a random call history with Parent-cache eviction storms, cache clears and look-alike collisions vs a freshly built twin; value AND type), repeat and anchor monitors, operand / argument immutability snapshots around every catalogue call",
+    "inspect-driven accessor catalogue (memoised members unwrapped) + ~150 fixed-argument calls on locations, sequences, codons and all gene-layer classes on five parent kinds; 1284 (quick) histories with confirmed cache evictions; three defects repaired (F2, F3, sequence-type spelling)",
+    "DESIGN.md 5/C10",
+)
